@@ -65,6 +65,7 @@ def _c09():
         ("R-RDB-EXPIRED", "a record carrying an expiry is never loaded as a persistent key", rules_rdb.rule_expired_on_load),
         ("R-RDB-DB", "loader stores into the database of the last SelectDb record; the writer's selector is the database it reads from", rules_rdb.rule_rdb_db),
         ("R-EXPIRE-INDEXREAD", "deadlines that are reported, persisted or acted on come from the stored value's metadata: only the sweeper reads the (possibly stale) expiry index", rules_expire.rule_index_read),
+        ("R-RDB-SIBLINGS", "every reader function that dispatches on the value-type byte (skipper, validator) consumes per type exactly what the writer emits", rules_rdb.rule_shape_siblings),
         ("R-RDB-CLOCK", "a remaining TTL is converted to the absolute deadline in the dump (and back at load) with a clock value read in the same function invocation, not one cached earlier", rules_rdb.rule_deadline_clock),
     ]
 
@@ -117,6 +118,7 @@ def _c13():
         ("R-BLK-REGPAIR", "blocked_on_key / blocked_keys are updated together; registration and Blocked state are set together", rules_block.rule_regpair),
         ("R-DISC-SIB", "both connection-removal sites perform the same clean-up set (blocking, pub/sub, monitor)", rules_block.rule_disc_sib),
         ("R-BLK-EOF", "blocked connections are not excluded from reading (disconnect detection)", rules_block.rule_eof),
+        ("R-BLK-UNREGALL", "unregistering a client removes every entry it has in a key's queue (retain, or a removal inside a loop that searches again)", rules_block.rule_unreg_all),
         ("R-BLK-FIFO", "a key's waiter queue is appended at the back, served from the front and otherwise edited only by order-preserving operations", rules_block.rule_fifo),
     ]
 
@@ -157,6 +159,7 @@ def _c16():
         ("R-CG-CURSOR", "a delivery advances the group cursor on both sides of the NOACK test", rules_stream.rule_cg_cursor),
         ("R-CG-START", "the start position given at creation initialises the delivery cursor", rules_stream.rule_cg_start),
         ("R-ATOMIC", "group administration refused for a bad argument has no effect (no refusal after a mutation)", rules_cmd.rule_atomic("C16")),
+        ("R-CG-IDLE", "idle times (claim thresholds, XPENDING idle column) are computed from last_delivery, never from delivered_at", rules_stream.rule_cg_idle),
         ("R-CG-BOUNDS", "XPENDING's cached ID bounds are derived from the pending index (recomputed, min/max with the old bound, or stored under a comparison), and every index mutation updates them on every path", rules_stream.rule_cg_bounds),
     ]
 
@@ -185,6 +188,7 @@ def _c06():
 def _c07():
     return [
         ("R-TX-QUEUE", "in process_frame every effectful call outside the five control commands is dominated by the in_transaction/should_queue_command test and not reachable from its queued edge", rules_tx.rule_queue),
+        ("R-TX-NOREFUSE", "inside MULTI no command is refused on a path that skips the queue step (every error reply built after the connection-state read is dominated by the queue test, or is a control command's or the authentication gate's)", rules_tx.rule_norefuse),
         ("R-TX-ORDER", "the queue is only appended at the back and consumed front to back; EXEC's loop pushes exactly one result per command (Ok and Err) and has no early exit", rules_tx.rule_order),
         ("R-TX-RESET", "every exit of EXEC after the in_transaction test passes a reset (in_transaction=false, queue taken/cleared, watched keys cleared), the reset precedes execution; DISCARD/UNWATCH clear on all paths", rules_tx.rule_reset),
         ("R-TX-ATOMIC", "nothing reachable from EXEC re-enters the event loop or blocks the command thread", rules_tx.rule_tx_atomic(lambda ctx: [SERVER + "handle_exec"], "EXEC")),
@@ -208,6 +212,7 @@ def _c18():
         ("R-DB", "at every call of a database-taking function on the command path the database operand is never a constant, a function with a database parameter passes it on, and a callee never re-derives a database its caller already determined", rules_db.rule_db),
         ("R-DB-SELECT", "the connection's selected database is stored only under a dominating index < database_count() test", rules_db.rule_select),
         ("R-TX-CONN", "queued commands are re-dispatched with the executing connection's identity (SELECT inside MULTI)", rules_tx.rule_tx_conn),
+        ("R-DB-EXEC", "in EXEC's loop the database of each queued command is read from the connection earlier in the same iteration (a queued SELECT governs the commands behind it)", rules_db.rule_exec_db),
     ]
 
 
@@ -239,6 +244,7 @@ def _c20():
         ("R-CODEC-TABLE", "the type byte the serializer writes for each variant is the byte for which the parser builds that variant; unknown bytes are errors; null forms mirrored; no unwrap on the parse path", rules_conn.rule_codec_table),
         ("R-CODEC-POS", "the incremental parser advances its position only on the Ok(Some) edge (restart-from-frame-start, the mechanism behind chunking independence)", rules_conn.rule_codec_pos),
         ("R-CRLF", "line-framed variants cannot be broken by payload bytes", rules_conn.rule_crlf),
+        ("R-CODEC-DECBUF", "a stack buffer that a digit loop fills with a 64-bit integer's decimal form has at least 20 bytes", rules_conn.rule_codec_decbuf),
         ("R-CODEC-INCOMPLETE", "an aggregate parser answers `need more data` only when a sub-parser did, or from a per-element length estimate of at most 3 bytes (the shortest RESP element)", rules_conn.rule_codec_incomplete),
     ]
 
